@@ -67,7 +67,9 @@ def check_tri(ctx, cs, meshes):
                 bad = True
                 break
             pos.append(p)
-            onsurf = obj.evaluate_single(list(v.uv)) if sh is not RAW else list(v.data)
+            # (parameters are accumulated in floating point by the mesher: 1.0000000000000002 is the domain end)
+            uvc = [min(1.0, max(0.0, t)) for t in v.uv]
+            onsurf = obj.evaluate_single(uvc) if sh is not RAW else list(v.data)
             if not (close_seq(list(v.data), onsurf) and close_seq(list(v.data), ev[p[1] + p[0] * sv])):
                 ctx.violate(site, tg + ["vertex_position"], small, {"uv": list(v.uv), "data": list(v.data), "surface_at_uv": onsurf})
                 bad = True
